@@ -681,6 +681,17 @@ def rule_18_10(rep, fx):
                 m = c[1].rsplit('::', 1)[-1]
                 if (m == 'eq' and lab is True) or (m == 'ne' and lab is False):
                     eq_true.append((s_, t_))
+    # membership of the whole name in a list of constants is the same test written once
+    for s_, t_, c, lab in edges:
+        neg = c[0] == 'un'
+        cc = c[2] if neg and len(c) > 2 and isinstance(c[2], tuple) else c
+        if isinstance(cc, tuple) and cc and cc[0] == 'call' and cc[1].rsplit('::', 1)[-1] == 'contains' and len(cc[2]) == 2:
+            lst, item = cc[2]
+            lst_const = term_has(lst, lambda t: t[0] == 'const') and not term_has(lst, lambda t: t[0] == 'param')
+            whole_item = item == topic or (item[0] == 'ref' and len(item) > 1 and item[1] == topic) or \
+                (term_has(item, lambda t: t == topic) and not term_has(item, lambda t: t[0] == 'call'))
+            if lst_const and whole_item and ((lab is True and not neg) or (lab is False and neg)):
+                eq_true.append((s_, t_))
     decide = [(bb, 'term') for bb, t in b.calls() if call_matches(t, 'Grant::check_action', 'DomainRule::find_topic_rule')]
     if len(decide) < 2:
         raise CheckBroken('R18.10: check_entity does not consult find_topic_rule and check_action')
